@@ -230,6 +230,14 @@ func c17GenColl(rng *verifkit.Rand, kn c17Knobs) *c17Coll {
 			switch {
 			case s == 0 && rng.Chance(7, 10):
 				st.Name = "."
+			case len(snames) > 0 && snames[len(snames)-1] != "." && rng.Chance(1, 3):
+				// a sibling whose name merely starts with the same characters
+				// (./run and ./run2): extracting one must not drag in the other
+				st.Name = snames[rng.Intn(len(snames))]
+				if st.Name == "." {
+					st.Name = snames[len(snames)-1]
+				}
+				st.Name += rng.PickStr("2", "-old", "x", ".bak", "_")
 			case len(snames) > 0 && rng.Chance(1, 4):
 				st.Name = snames[rng.Intn(len(snames))] // repeated stream, or extend one below
 				if rng.Bool() {
